@@ -20,6 +20,9 @@ pub struct MachineEngine {
     m: Option<Machine>,
     cons: HashMap<String, Receiver<ConsumerMessage>>,
     lst: HashMap<String, Lst>,
+    /// case clock: origin (set by `init`) and the nominal time reached by `sleep` ops
+    t0: Option<std::time::Instant>,
+    nominal_ms: u64,
 }
 
 fn show_send(o: SendOutcome) -> String {
@@ -86,6 +89,8 @@ impl Engine for MachineEngine {
                     self.m = Some(Machine::new(cm, tuning).expect("machine"));
                     self.cons.clear();
                     self.lst.clear();
+                    self.t0 = Some(std::time::Instant::now());
+                    self.nominal_ms = 0;
                     out.push("ok".into());
                 }
                 _ => out.push("bad-op".into()),
@@ -169,6 +174,53 @@ impl Engine for MachineEngine {
                     out.push(format!("wrote {}", hex(&m!().stream.written)));
                 }
                 self.io_result(res, out)
+            }
+            // heartbeat timers of the real loop, in real milliseconds
+            ["hb-start", ms] => {
+                if dead {
+                    return out.push("dead".into());
+                }
+                match ms.parse::<u64>() {
+                    Ok(ms) => {
+                        m!().start_heartbeats_ms(ms);
+                        out.push("ok".into())
+                    }
+                    Err(_) => out.push("bad-op".into()),
+                }
+            }
+            // sleep until the case clock reads `ms` more (absolute deadlines: lateness of one op is
+            // not inherited by the next); a wake-up more than 40 ms late is reported so that the
+            // orchestrator can set the case aside instead of trusting its timing
+            ["sleep", ms] => match ms.parse::<u64>() {
+                Ok(ms) => {
+                    self.nominal_ms += ms;
+                    let t0 = self.t0.unwrap_or_else(std::time::Instant::now);
+                    let target = t0 + std::time::Duration::from_millis(self.nominal_ms);
+                    let now = std::time::Instant::now();
+                    if target > now {
+                        std::thread::sleep(target - now);
+                    }
+                    let late = std::time::Instant::now().saturating_duration_since(target).as_millis();
+                    out.push(if late > 40 { format!("ok late {}", late) } else { "ok".into() })
+                }
+                Err(_) => out.push("bad-op".into()),
+            },
+            // the HEARTBEAT token: `process_heartbeat_timers`.  mio-extras' timer hands out the
+            // expired timeouts of one tick per call, so the event is delivered until nothing more
+            // comes of it (what the real poll loop does: the timer stays readable).
+            ["hbev"] => {
+                if dead {
+                    return out.push("dead".into());
+                }
+                let mut last: Caught = Ok(Ok(()));
+                for _ in 0..4 {
+                    last = guard(|| m!().event(Machine::token_heartbeat(), true, false));
+                    if !matches!(last, Ok(Ok(()))) {
+                        break;
+                    }
+                    std::thread::sleep(std::time::Duration::from_millis(1));
+                }
+                self.io_result(last, out)
             }
             ["ev", tok] => {
                 if dead {
